@@ -874,6 +874,11 @@ impl MacroArgParser {
             return None;
         }
 
+        // `/` as separator in front of `*` would open a comment.
+        if buffer == "/" && self.last_tok.kind == TokenKind::Star {
+            return None;
+        }
+
         // There could be some random stuff between ')' and '*', '+' or '?'.
         let another = if buffer.trim().is_empty() {
             None
